@@ -136,7 +136,7 @@ func (x *Exec) havoc(e *Env, t types.Type, base string) Value {
 		if isErrorType(t) {
 			return ErrV{Nil: x.fresh(base+".nil", BoolS), Kind: x.fresh(base+".kind", IntS), Type: x.fresh(base+".type", IntS), Off: x.fresh(base+".off", IntS)}
 		}
-		return AbsV{x.fresh(base, UnS(absSortName(t))), t}
+		return Scalar{x.fresh(base, UnS(absSortNameV(t))), t}
 	case *types.Signature:
 		return AbsV{x.fresh(base, UnS("Func")), t}
 	}
@@ -583,6 +583,20 @@ func (e *Env) contractForm(name string, n *ast.CallExpr) (Value, bool) {
 	case "mathint":
 		v := e.expr(n.Args[0])
 		return Scalar{e.toIntTerm(v), mathIntType}, true
+	case "contents":
+		// contents(s): the whole backing array of a slice that starts at offset 0 of its allocation
+		sv, ok := e.expr(n.Args[0]).(SliceV)
+		if !ok {
+			unsupported("%s: contents() of a non-slice", e.where)
+		}
+		arr := e.x.memArr(e.st, sv.Alloc, sv.path)
+		return ArrayV{T: arr.T, N: -1, Elem: sv.Elem}, true
+	case "errkind":
+		ev, ok := e.expr(n.Args[0]).(ErrV)
+		if !ok {
+			unsupported("%s: errkind() of a non-error", e.where)
+		}
+		return Scalar{ev.Kind, mathIntType}, true
 	case "sameptr":
 		// sameptr(p, q): both pointers designate the same allocation (decided statically per path)
 		p, ok1 := e.expr(n.Args[0]).(PtrV)
@@ -783,6 +797,13 @@ func (x *Exec) applySpec(e *Env, sf *SpecFn, spkg *packages.Package, args []Valu
 		rs = IntS
 	}
 	if rs == nil {
+		// array-valued function: the whole backing array of a byte sequence
+		if st, ok := rt.Underlying().(*types.Slice); ok {
+			if es := e.R().sortOf(st.Elem()); es != nil {
+				name := sf.Name + x.reprTag()
+				return ArrayV{T: App(name, ArrS(es), flat...), N: -1, Elem: st.Elem()}
+			}
+		}
 		unsupported("spec %s: result type %s", sf.Name, rt)
 	}
 	name := sf.Name
@@ -938,6 +959,14 @@ func (x *Exec) callFunc(e *Env, callee *types.Func, recvExpr ast.Expr, n *ast.Ca
 			return v
 		}
 		rv := e.expr(recvExpr)
+		if hv, isHash := rv.(HashV); isHash {
+			if callee.Name() == "Write" || callee.Name() == "Reset" {
+				unsupported("%s: %s on a hash object that is not held in a variable", e.where, callee.Name())
+			}
+			if v, ok := x.hashMethod(e, nil, hv, callee.Name(), n); ok {
+				return v
+			}
+		}
 		if _, isIface := sig.Recv().Type().Underlying().(*types.Interface); isIface {
 			if conc := concreteTypeOf(rv); conc != nil {
 				if m := lookupMethod(conc, callee.Name()); m != nil {
@@ -1100,6 +1129,13 @@ func (x *Exec) modularCall(e *Env, callee *types.Func, c *Contract, args []Value
 			x.addObl("pre", fmt.Sprintf("nopanic.%s.%d.%d", short, ord, i+1), e.st, Not(t), x.pos(n))
 		}
 		e.st.assume(Not(t))
+	}
+	if c.Decreases != nil && callee == x.Obj && len(x.frames) == 1 {
+		ce.where = c.Decreases.Line
+		m1 := ce.toIntTerm(ce.expr(c.Decreases.Expr))
+		ee := x.entryEnv(x.entry)
+		m0 := ee.toIntTerm(ee.expr(c.Decreases.Expr))
+		x.addObl("dec", fmt.Sprintf("decreases.%d", ord), e.st, And(Le(IntC(0), m1), Lt(m1, m0)), x.pos(n))
 	}
 	pre = e.st.fork()
 	ce.oldSt = pre
